@@ -351,6 +351,11 @@ func sameValue(a, b ssa.Value, d int) bool {
 		if ox == nil || ox != oy {
 			return false
 		}
+		// only accessor-like calls (results of basic type) are treated as denoting the same
+		// value when repeated; constructors/decoders returning pointers, slices or maps are not
+		if !basicResults(x.Type()) {
+			return false
+		}
 		ax, ay := CallArgs(&x.Call), CallArgs(&y.Call)
 		if len(ax) != len(ay) {
 			return false
@@ -422,4 +427,19 @@ func ConstValInt(v constant.Value) (int64, bool) {
 		return int64(u), true
 	}
 	return 0, false
+}
+
+func basicResults(t types.Type) bool {
+	switch u := t.(type) {
+	case *types.Tuple:
+		for i := 0; i < u.Len(); i++ {
+			if !basicResults(u.At(i).Type()) {
+				return false
+			}
+		}
+		return true
+	default:
+		_, ok := t.Underlying().(*types.Basic)
+		return ok
+	}
 }
